@@ -57,6 +57,21 @@ def _weaken_dict(o: HObj):
         o.exact = False
 
 
+def _keyed_sort(ex, o, key: Term, st: State, node) -> bool:
+    """xs.sort(key=f) in a concrete-control scenario: stable sort by keys that evaluate to constants (like sorted(xs, key=f)); False when a key is not decided"""
+    items = list(o.items)
+    try:
+        keys = [ex.call(key, [it], {}, st, node) for it in items]
+    except PathDead:
+        return False
+    tmp = ex.new_list(st, [mk("tuple", (k, C(i))) for i, k in enumerate(keys)])
+    if not _term_sort(ex, ex.obj(st, tmp), st, node):
+        return False
+    order = [cval(unsnap_(t).args[0][1]) for t in ex.obj(st, tmp).items]
+    o.items = [items[i] for i in order]
+    return True
+
+
 def namedtuple_fields(fn: Term):
     """field names if fn is the class made by collections.namedtuple(name, fields) with constant arguments"""
     if not (fn.op == "call" and isinstance(fn.args[0], Term) and fn.args[0].op == "ext" and fn.args[0].args[0] in ("collections.namedtuple", "namedtuple") and len(fn.args[1]) >= 2):
@@ -368,11 +383,18 @@ def call_builtin(ex, name: str, args, kwargs, st: State, node) -> Term:
     if name == "slice" and not kwargs and 1 <= n <= 3:
         # slice(stop) / slice(start, stop[, step]): the object x[a:b:c] builds implicitly
         return mk("sliceobj", *((NONE, A[0], NONE) if n == 1 else (A[0], A[1], A[2] if n == 3 else NONE)))
-    if name == "map" and n == 2 and not kwargs and A[0].op in ("func", "closure", "bound", "class", "builtin", "partial"):
-        # map(f, xs) over a sequence whose items are known one by one: the results, item by item (evaluated here; the consumer sees them in order)
-        its = ex.iter_items(A[1], st) if A[1].op in ("tuple", "sbytes", "ref") or is_const(A[1]) else None
-        if its is not None and len(its) <= 64:
-            return mk("tuple", tuple(ex.call(A[0], [x], {}, st, node) for x in its))
+    if name == "memoryview" and n == 1 and not kwargs:
+        # a view of an immutable byte string is indexed, sliced, measured, iterated and converted like the string itself
+        o_ = ex.obj(st, A[0])
+        if o_ is None or o_.kind not in ("bytearray", "list"):
+            return A[0]
+    if name == "map" and n >= 2 and not kwargs and A[0].op in ("func", "closure", "bound", "class", "builtin", "partial", "ext", "opcaller"):
+        # map(f, xs, ys, ...) over sequences whose items are known one by one: the results, item by item, as far as the shortest goes (evaluated here; the
+        # consumer sees them in order)
+        lists = [ex.iter_items(a, st) if a.op in ("tuple", "sbytes", "ref") or is_const(a) else None for a in A[1:]]
+        if all(l is not None for l in lists) and min(len(l) for l in lists) <= 64:
+            k_ = min(len(l) for l in lists)
+            return mk("tuple", tuple(ex.call(A[0], [l[i] for l in lists], {}, st, node) for i in range(k_)))
     if name == "sum" and n in (1, 2) and not kwargs:
         its = ex.iter_items(A[0], st) if A[0].op in ("tuple",) or (A[0].op == "ref" and ex.sym_bytes) else None
         if its is not None and 1 <= len(its) <= 64 and not all(is_const(x) for x in its):
@@ -546,7 +568,7 @@ def call_builtin(ex, name: str, args, kwargs, st: State, node) -> Term:
                     return ex.new_list(st, [items[i] for i in order])
         res = mk("call", mk("builtin", name), tuple(A), tuple(sorted(kwargs.items())), 0)
         ex.emit("extcall", node, st, name=name, recv=None, args=tuple(A), kwargs=dict(kwargs), result=res, pure=True)
-        if name == "map" and A and A[0].op in ("func", "closure", "bound", "class", "builtin"):
+        if name == "map" and A and A[0].op in ("func", "closure", "bound", "class", "builtin", "ext", "partial", "opcaller"):
             # the mapped callable is applied to a generic element
             lid = fresh_uid()
             saved = st.ctx
@@ -580,6 +602,18 @@ def call_builtin(ex, name: str, args, kwargs, st: State, node) -> Term:
             return r
         return res
     if name in ("any", "all") and n == 1:
+        its = ex.iter_items(A[0], st) if A[0].op in ("ref", "tuple") else None
+        o_ = ex.obj(st, A[0])
+        if its is not None and len(its) <= 16 and not (o_ is not None and getattr(o_, "is_gen", False) and not ex.sym_bytes and False):
+            # any / all over items known one by one: the disjunction / conjunction of their truth values
+            ts = [ex.truth(x, st) for x in its]
+            absorbing = name == "any"
+            if any(is_const(t_) and bool(cval(t_)) == absorbing for t_ in ts):
+                return C(absorbing)
+            ts = [t_ for t_ in ts if not is_const(t_)]
+            if not ts:
+                return C(not absorbing)
+            return ts[0] if len(ts) == 1 else mk("or" if absorbing else "and", tuple(ts))
         res = mk("call", mk("builtin", name), tuple(A), (), 0)
         return res
     if name == "super":
@@ -795,6 +829,18 @@ def call_bmeth(ex, recv: Term, name: str, args, kwargs, st: State, node) -> Term
         return method_on_symbolic(ex, recv, name, A, kwargs, st, node)
     inexact = _inexact_ctx(st, o)
     k = o.kind
+    if k == "bytearray" and getattr(o, "is_stream", False) and name != "extend":
+        # a write-only io.BytesIO(): write(x) appends x, getvalue() is everything written so far
+        if name == "write" and len(A) == 1:
+            call_bmeth(ex, recv, "extend", [A[0]], {}, st, node)
+            return mk("len", A[0])
+        if name == "getvalue" and not A:
+            return call_builtin(ex, "bytes", [recv], {}, st, node)
+        if name in ("close", "flush", "__exit__") :
+            return NONE
+        if name == "__enter__":
+            return recv
+        raise Unsupported("io.BytesIO used for more than writing (%s)" % name)
     if k in ("list", "bytearray"):
         if name == "append" and len(A) == 1:
             if o.exact and not inexact:
@@ -857,6 +903,8 @@ def call_bmeth(ex, recv: Term, name: str, args, kwargs, st: State, node) -> Term
             elif name == "sort" and o.exact and len(o.items) <= 1:
                 pass
             elif name == "sort" and o.exact and not inexact and ex.sym_bytes and not kwargs and _term_sort(ex, o, st, node):
+                pass
+            elif name == "sort" and o.exact and not inexact and ex.sym_bytes and set(kwargs) == {"key"} and _keyed_sort(ex, o, kwargs["key"], st, node):
                 pass
             else:
                 _weaken_list(o)
@@ -989,6 +1037,38 @@ PURE_EXT = {
 }
 
 
+def _is_big_endian_fold(ex, f: Term, st: State, node) -> bool:
+    """f(v, o) == v * 256 + o for every accumulator v >= 0 and octet o in 0..255 (decided by evaluating the function's result term on a grid:
+    `(v << 8) | o`, `v * 0x100 + o`, `(v << 8) + o` are the same function there)"""
+    from .evalterm import NoEval, eval_term
+
+    key = ("be_fold", f.uid)
+    memo = getattr(ex, "_fold_memo", None)
+    if memo is None:
+        memo = ex._fold_memo = {}
+    if key in memo:
+        return memo[key]
+    v, o = sym("fold_acc"), sym("fold_octet")
+    ok = False
+    mark = len(ex.trace)
+    try:
+        sub = st.fork()
+        r = ex.call(f, [v, o], {}, sub, node)
+        ok = True
+        for acc in (0, 1, 2, 127, 128, 255, 256, 257, 0xABCD, 0xFFFF, 0x10000, 0x12345678, (1 << 64) + 3):
+            for oc in (0, 1, 2, 15, 16, 127, 128, 254, 255):
+                if eval_term(r, {v.uid: acc, o.uid: oc}) != acc * 256 + oc:
+                    ok = False
+                    break
+            if not ok:
+                break
+    except (NoEval, Unsupported, PathDead, TypeError, ValueError, KeyError, ZeroDivisionError, AttributeError):
+        ok = False
+    del ex.trace[mark:]
+    memo[key] = ok
+    return ok
+
+
 def call_ext(ex, name: str, args, kwargs, st: State, node) -> Term:
     A = args
     if name in ("copy.copy",) and len(A) == 1:
@@ -1016,12 +1096,39 @@ def call_ext(ex, name: str, args, kwargs, st: State, node) -> Term:
         r_ = struct_pack(ex, cval(A[0]), list(A[1:]), st, node)
         if r_ is not None:
             return r_
+    if name in ("io.BytesIO", "BytesIO") and not A and not kwargs:
+        r = ex.new_obj(st, "bytearray", label="bytesio")
+        ex.obj(st, r).is_stream = True
+        return r
+    if name.startswith("operator.") and not kwargs:
+        # the operator module's functions are the operators themselves
+        opn = name.split(".", 1)[1].strip("_")
+        BIN = {"xor": "BitXor", "and": "BitAnd", "or": "BitOr", "add": "Add", "sub": "Sub", "mul": "Mult", "floordiv": "FloorDiv", "mod": "Mod", "lshift": "LShift", "rshift": "RShift", "pow": "Pow"}
+        CMP = {"eq": "Eq", "ne": "NotEq", "lt": "Lt", "le": "LtE", "gt": "Gt", "ge": "GtE", "is": "Is", "is_not": "IsNot"}
+        if opn in BIN and len(A) == 2:
+            return ex.binop(BIN[opn], A[0], A[1], st, node)
+        if opn in CMP and len(A) == 2:
+            return ex.compare(CMP[opn], A[0], A[1], st, node)
+        if opn == "neg" and len(A) == 1:
+            return C(-cval(A[0])) if is_const(A[0]) and isinstance(cval(A[0]), int) else mk("un", "USub", A[0])
+        if opn == "not" and len(A) == 1:
+            from .exprs import neg as _neg
+
+            return _neg(ex.truth(A[0], st))
+        if opn == "getitem" and len(A) == 2:
+            return ex.do_subscript(A[0], A[1], None, st, node)
+        if opn in ("methodcaller", "attrgetter", "itemgetter") and A and all(is_const(a) for a in A[:1]):
+            return mk("opcaller", opn, tuple(A))
     if name in ("itertools.zip_longest", "zip_longest") and len(A) >= 1 and set(kwargs) <= {"fillvalue"}:
         return mk("iterview", "zip_longest", mk("tuple", tuple(A)), kwargs.get("fillvalue", NONE))
     if name in ("functools.partial", "partial") and A and A[0].op in ("closure", "func", "bound", "class", "partial", "ext", "builtin"):
         # partial(f, *a, **k) only stores its arguments; calling it is f(*a, *args, **{**k, **kwargs})
         return mk("partial", A[0], tuple(A[1:]), tuple(sorted(kwargs.items())))
-    if name in ("functools.reduce", "reduce") and len(A) == 3 and not kwargs and A[0].op in ("closure", "func", "bound", "builtin"):
+    if name in ("functools.reduce", "reduce") and len(A) == 3 and not kwargs and A[0].op in ("closure", "func", "bound", "builtin", "ext") and is_const(A[2]) and cval(A[2]) == 0 \
+            and not isinstance(cval(A[2]), bool) and _is_big_endian_fold(ex, A[0], st, node):
+        # reduce(lambda v, o: v * 256 + o, data, 0) over a byte string is int.from_bytes(data, "big")
+        return call_builtin(ex, "int.from_bytes", [A[1], C("big")], {}, st, node)
+    if name in ("functools.reduce", "reduce") and len(A) == 3 and not kwargs and A[0].op in ("closure", "func", "bound", "builtin", "ext", "partial"):
         # reduce(f, xs, init) is `acc = init; for x in xs: acc = f(acc, x)`: interpreted as exactly that loop
         import ast as _ast
 
@@ -1099,10 +1206,69 @@ def repo_summary(ex, fi: FuncInfo, args, kwargs, st: State, node) -> Optional[Te
     return None
 
 
+def dataclass_fields(c: ClassInfo):
+    """[(field name, default expression or None)] in declaration order if c is a @dataclass without a hand-written __init__ (and without dataclass bases), else None"""
+    import ast as _ast
+
+    def is_dc(d):
+        f = d.func if isinstance(d, _ast.Call) else d
+        return (isinstance(f, _ast.Name) and f.id == "dataclass") or (isinstance(f, _ast.Attribute) and f.attr == "dataclass")
+
+    if not any(is_dc(d) for d in c.node.decorator_list) or "__init__" in c.methods:
+        return None
+    if any(isinstance(b, ClassInfo) for b in c.mro()[1:]):
+        return None
+    out = []
+    for b_ in c.node.body:
+        if isinstance(b_, _ast.AnnAssign) and isinstance(b_.target, _ast.Name):
+            ann = _ast.unparse(b_.annotation)
+            if ann.startswith("ClassVar") or ann.startswith("typing.ClassVar"):
+                continue
+            if isinstance(b_.value, _ast.Call) and getattr(b_.value.func, "id", getattr(b_.value.func, "attr", None)) == "field":
+                return None
+            out.append((b_.target.id, b_.value))
+    return out
+
+
+def bind_dataclass(ex, c: ClassInfo, fields, args, kwargs, st, node):
+    """field name -> value for C(*args, **kwargs); None when the call does not fit (left to the generic path)"""
+    names = [n for n, _ in fields]
+    if len(args) > len(names) or any(k not in names for k in kwargs) or "**" in kwargs or any(a.op == "star" for a in args):
+        return None
+    vals = dict(zip(names, args))
+    for k, v in kwargs.items():
+        if k in vals:
+            return None
+        vals[k] = v
+    for n, d in fields:
+        if n not in vals:
+            if d is None:
+                return None
+            try:
+                vals[n] = ex.lift(ex.prog.fold(c.module, d, cls=c))
+            except Exception:
+                return None
+    return vals
+
+
 def instantiate_model(ex, c: ClassInfo, args, kwargs, st: State, node) -> Optional[Term]:
     hook = getattr(ex, "instantiate_hook", None)
     if hook is not None:
         return hook(ex, c, args, kwargs, st, node)
+    dcf = dataclass_fields(c)
+    if dcf is not None:
+        # @dataclass: the generated __init__ stores its arguments in the fields, in order, then runs __post_init__ if there is one
+        vals = bind_dataclass(ex, c, dcf, args, kwargs, st, node)
+        if vals is not None:
+            r = ex.new_obj(st, "obj", cls=c, label=c.name)
+            ex.emit("new", node, st, cls=c, args=tuple(args), kwargs=dict(kwargs), result=r)
+            o = ex.obj(st, r)
+            for n, _ in dcf:
+                o.attrs[n] = vals[n]
+            post = c.lookup("__post_init__")
+            if post is not None and isinstance(post[1], FuncInfo):
+                ex.call_function(post[1], [r], {}, st, node, self_term=r)
+            return r
     # class X(typing.NamedTuple): annotated names of the class body are the fields, in order; values are defaults
     if any(b in ("typing.NamedTuple", "NamedTuple") for b in c.external_bases()) and c.lookup("__new__") is None and "**" not in kwargs and not any(a.op == "star" for a in args):
         import ast as _ast
